@@ -108,3 +108,15 @@ PROPS = {
                         "absence of a key is characterised by the walk not spelling it; the link to the abstract dictionary map is C05's"],
     },
 }
+
+
+# ---- per-property entries written by the builders: bin/props.d/Cxx.py, each defining
+# PROP = {...} (same keys as above) and META = {'text','design_ref','note','technique'}
+import glob as _glob, os as _os
+EXTRA_META = {}
+for _f in sorted(_glob.glob(_os.path.join(_os.path.dirname(_os.path.abspath(__file__)), 'props.d', 'C*.py'))):
+    _ns = {}
+    exec(compile(open(_f).read(), _f, 'exec'), _ns)
+    _pid = _os.path.basename(_f)[:-3]
+    PROPS[_pid] = _ns['PROP']
+    EXTRA_META[_pid] = _ns['META']
